@@ -130,7 +130,7 @@ Definition photo_fix_line (line : pystr) : pystr :=
     let '(pars, r1) := span no_colon_brk rest in
     match r1 with
     | c :: r2 =>
-        if (c =? COLON) && has_enc_b (lower_s pars) && istarts r2 (str "data:") then
+        if (c =? COLON) && startswith pars [SEMI] && has_enc_b (lower_s pars) && istarts r2 (str "data:") then
           let '(media, r3) := span media_char (skipn 5 r2) in
           if istarts r3 (str ";base64,") then firstn 5 line ++ pars ++ COLON :: skipn 8 r3 else line
         else line
@@ -344,3 +344,93 @@ Definition nothing_to_clean (x : node) : bool :=
                                    end) ch
   | L _ => true
   end.
+
+(* ------------------------------------------------------------------ value codecs per property (vobject behaviours) *)
+(* Which codec vobject applies to a content line depends on the enclosing component: a name listed in the
+   component behaviour's knownChildren gets the behaviour registered under that name (none registered = the raw
+   value is kept), any other name gets the component's default behaviour, which is the TEXT codec.
+   The tables below are the ones of vobject 0.9.x; checks/C14.py compares them with the installed library on
+   every run.  Names whose registered behaviour converts to a native value (dates, durations, N, ADR, ORG) are
+   listed as raw: the model is exact for them only on canonical values, which is what the byte-exact
+   correspondence stream generates. *)
+Inductive vclass := VRaw | VText | VMulti (sep : N).
+
+Definition names (l : list string) : list pystr := map str l.
+Definition recur_raw := names ["ATTACH"; "ATTENDEE"; "CREATED"; "DTSTAMP"; "DTSTART"; "EXDATE"; "EXRULE"; "LAST-MODIFIED";
+  "ORGANIZER"; "RDATE"; "RECURRENCE-ID"; "RRULE"; "SEQUENCE"; "URL"]%string.
+Definition raw_names (comp : pystr) : list pystr :=
+  if eqs comp (str "VCALENDAR") then names ["VERSION"]%string
+  else if eqs comp (str "VEVENT") then recur_raw ++ names ["DTEND"; "DURATION"; "GEO"; "PRIORITY"]%string
+  else if eqs comp (str "VTODO") then recur_raw ++ names ["COMPLETED"; "DUE"; "DURATION"; "GEO"; "PERCENT"; "PRIORITY"]%string
+  else if eqs comp (str "VJOURNAL") then recur_raw
+  else if eqs comp (str "VALARM") then names ["DURATION"; "REPEAT"; "TRIGGER"]%string
+  else if eqs comp (str "VTIMEZONE") then names ["LAST-MODIFIED"; "TZID"; "TZURL"]%string
+  else if eqs comp (str "STANDARD") || eqs comp (str "DAYLIGHT") then names ["DTSTART"; "RRULE"]%string
+  else if eqs comp (str "VCARD") then names ["ADR"; "GEO"; "N"; "ORG"; "VERSION"]%string
+  else [].
+Definition multi_names (comp : pystr) : list (pystr * N) :=
+  if eqs comp (str "VEVENT") || eqs comp (str "VTODO")
+  then [(str "CATEGORIES", COMMA); (str "RESOURCES", COMMA); (str "REQUEST-STATUS", SEMI)]
+  else if eqs comp (str "VJOURNAL") then [(str "CATEGORIES", COMMA); (str "REQUEST-STATUS", SEMI)]
+  else if eqs comp (str "VCARD") then [(str "CATEGORIES", COMMA)]
+  else [].
+
+(* base64 payloads bypass the TEXT codec: iCalendar when ENCODING=BASE64, vCard whenever ENCODING is present *)
+Definition s_ENCODING := str "ENCODING".
+Definition is_base64 (comp : pystr) (l : cl) : bool :=
+  match param s_ENCODING l with
+  | Some (v :: _) => if eqs comp (str "VCARD") then true else eqs (upper_ascii v) (str "BASE64")
+  | _ => false
+  end.
+
+Definition value_class (comp : pystr) (l : cl) : vclass :=
+  if mem_str (cl_name l) (raw_names comp) then VRaw
+  else match find (fun kv => eqs (fst kv) (cl_name l)) (multi_names comp) with
+       | Some (_, sep) => VMulti sep
+       | None => if is_base64 comp l then VRaw else VText
+       end.
+
+Definition canon_value (comp : pystr) (l : cl) : cl :=
+  match value_class comp l with
+  | VRaw => l
+  | VText => mkCl (cl_group l) (cl_name l) (cl_params l) (text_canon (cl_value l))
+  | VMulti sep => mkCl (cl_group l) (cl_name l) (cl_params l) (multitext_canon sep (cl_value l))
+  end.
+
+Fixpoint canon_values (comp : pystr) (x : node) : node :=
+  match x with
+  | L l => L (canon_value comp l)
+  | C n ch => C n (map (canon_values n) ch)
+  end.
+
+(* ------------------------------------------------------------------ PUT of one object, end to end *)
+(* vobject never folds PHOTO lines of a vCard (wacky_apple_photo_serialize) *)
+Definition fold_line_in (comp : pystr) (l : cl) : pystr :=
+  if eqs comp (str "VCARD") && eqs (cl_name l) (str "PHOTO") then print_cl l ++ [CR; LF] else fold_line (print_cl l).
+
+Fixpoint print_node (comp : pystr) (x : node) : pystr :=
+  match x with
+  | L l => fold_line_in comp l
+  | C n ch => fold_line (print_cl (begin_line n))
+              ++ (fix pl (l : list node) : pystr := match l with [] => [] | y :: r => print_node n y ++ pl r end) ch
+              ++ fold_line (print_cl (end_line n))
+  end.
+
+(* stored text of an accepted single-object upload; None = refused or outside the model *)
+Definition put_model (t : pystr) : option pystr :=
+  match parse_lines_qp (read_cleanup t) with
+  | Some ls =>
+      match build ls with
+      | Some [x] =>
+          match sanitize (canon_values [] x) with
+          | Some y => Some (print_node [] (canon_node y))
+          | None => None
+          end
+      | _ => None
+      end
+  | None => None
+  end.
+
+(* what a later cache miss recomputes from the stored text (multifilesystem/get.py: read_components +
+   check_and_sanitize_items + serialize): the same pipeline applied to the stored text *)
+Definition reload_model (stored : pystr) : option pystr := put_model stored.
